@@ -9,6 +9,7 @@ mod refstore;
 mod simchild;
 mod simsat;
 mod statics;
+mod streams;
 
 use framework::{BatchCfg, Tier};
 
